@@ -192,6 +192,57 @@ fn forged_kbs(a: &Session, hk: Hk) -> Vec<KbItem> {
     out
 }
 
+/// Thorough: the full product of field values x signers (every combination, not only single deviations).
+fn forged_product(a: &Session, hk: Hk) -> Vec<KbItem> {
+    let good_hash = codec::digest(&Parts { jwt: a.cred.parts.jwt.clone(), disclosures: a.s_big.clone(), kb: None }.sd_hash_input());
+    let small_hash = codec::digest(&Parts { jwt: a.cred.parts.jwt.clone(), disclosures: a.s_small.clone(), kb: None }.sd_hash_input());
+    let now = tokens::now();
+    let alg = holder_alg(hk);
+    let mut out = vec![];
+    let typs = [Some(json!("kb+jwt")), None, Some(json!("JWT"))];
+    let nonces = [Some(json!(NONCES[0])), Some(json!(NONCES[1])), None];
+    let auds = [Some(json!(AUDS[0])), Some(json!(AUDS[1])), None, Some(json!([AUDS[0]]))];
+    let hashes = [Some(json!(good_hash)), Some(json!(small_hash)), None];
+    let signers: [(&str, EncodingKey); 3] = [("h1", hk.enc(0).unwrap()), ("h2", hk.enc(1).unwrap()), ("attacker", keys::attacker_enc(hk == Hk::Ed))];
+    for (ti, typ) in typs.iter().enumerate() {
+        for (ni, nonce) in nonces.iter().enumerate() {
+            for (ai, aud) in auds.iter().enumerate() {
+                for (hi, h) in hashes.iter().enumerate() {
+                    for (sname, key) in &signers {
+                        let mut hdr = json!({"alg": hk.alg().unwrap()});
+                        if let Some(t) = typ {
+                            hdr["typ"] = t.clone();
+                        }
+                        let mut pl = json!({"iat": now});
+                        if let Some(n) = nonce {
+                            pl["nonce"] = n.clone();
+                        }
+                        if let Some(a) = aud {
+                            pl["aud"] = a.clone();
+                        }
+                        if let Some(h) = h {
+                            pl["sd_hash"] = h.clone();
+                        }
+                        let tok = tokens::sign_json(&hdr, &pl, alg, key);
+                        out.push(KbItem {
+                            label: format!("product:typ{ti}_nonce{ni}_aud{ai}_hash{hi}_{sname}"),
+                            token: Some(tok),
+                            signer: sname.to_string(),
+                            alg_family_ok: true,
+                            typ: typ.clone(),
+                            nonce: nonce.clone(),
+                            aud: aud.clone(),
+                            sd_hash: h.clone(),
+                            holder_made_for: None,
+                        });
+                    }
+                }
+            }
+        }
+    }
+    out
+}
+
 fn fixed_kbs() -> Vec<KbItem> {
     let mk = |label: &str, token: Option<&str>| KbItem { label: label.into(), token: token.map(str::to_string), signer: "none".into(), alg_family_ok: false, typ: None, nonce: None, aud: None, sd_hash: None, holder_made_for: None };
     vec![mk("absent", None), mk("empty", Some("")), mk("garbage", Some("x.y.z")), mk("one_part", Some("abc"))]
@@ -351,6 +402,13 @@ pub struct World {
     pub hk: Hk,
 }
 
+pub fn world_thorough(hk: Hk, issuer_alg: Alg, l: &mut Local) -> Option<World> {
+    let mut w = world(hk, issuer_alg, l)?;
+    let extra = forged_product(&w.sessions[0], hk);
+    w.kbs.extend(extra);
+    Some(w)
+}
+
 pub fn world(hk: Hk, issuer_alg: Alg, l: &mut Local) -> Option<World> {
     let a = session("A", hk, 0, issuer_alg, l)?;
     let b = session("B", hk, 0, issuer_alg, l)?;
@@ -382,7 +440,8 @@ pub fn expectations() -> Vec<(Option<&'static str>, Option<&'static str>)> {
 
 fn run_world(rep: &Report, hk: Hk, issuer_alg: Alg) {
     let mut l0 = Local::default();
-    let Some(w) = world(hk, issuer_alg, &mut l0) else {
+    let built = if rep.quick() { world(hk, issuer_alg, &mut l0) } else { world_thorough(hk, issuer_alg, &mut l0) };
+    let Some(w) = built else {
         rep.machinery_error(format!("C04 world construction failed for holder key {}", hk.name()));
         return;
     };
@@ -572,7 +631,7 @@ pub fn replay(case: &Value) -> Vec<Violation> {
         "c04" => {
             let hk = if case["holder_key"] == "EdDSA" { Hk::Ed } else { Hk::Es };
             let ia = Alg::from_name(case["issuer_alg"].as_str().unwrap());
-            let Some(w) = world(hk, ia, &mut l) else { return vec![] };
+            let Some(w) = world_thorough(hk, ia, &mut l) else { return vec![] };
             let Some(j) = w.sessions.iter().find(|s| case["credential"] == s.name.as_str()) else { return vec![] };
             let lists = lists_for(j);
             let Some((lab, list)) = lists.iter().find(|(lab, _)| case["list"] == lab.as_str()) else { return vec![] };
